@@ -31,9 +31,21 @@ func (w *vfFailWriter) Write(p []byte) (int, error) {
 	}
 	if fail {
 		if w.mode == 2 && len(p) > 0 {
+			// partial: 0..3 bytes accepted, or (4,5,6) all but one, all but two, half of the data
 			n := w.partial
+			switch w.partial {
+			case 4:
+				n = len(p) - 1
+			case 5:
+				n = len(p) - 2
+			case 6:
+				n = len(p) / 2
+			}
 			if n >= len(p) {
 				n = len(p) - 1
+			}
+			if n < 0 {
+				n = 0
 			}
 			w.got = append(w.got, p[:n]...)
 			return n, vfErrWrite
@@ -96,7 +108,10 @@ func VerifC15_writer() {
 	if W == 0 {
 		return
 	}
-	w := &vfFailWriter{k: vfInt("k", 0, 40), mode: vfChoice("mode", 3), partial: vfInt("partial", 0, 3)}
+	w := &vfFailWriter{k: vfInt("k", 0, 40), mode: vfChoice("mode", 3)}
+	if w.mode == 2 {
+		w.partial = vfChoice("partial", 7)
+	}
 	vfAssume(w.k < W)
 	if w.mode == 1 {
 		vfTag("fails-once")
@@ -129,7 +144,10 @@ func VerifC15_recover() {
 	}
 	W := clean.calls
 	rt := vfWrapper(t, f)
-	bad := &vfFailWriter{k: vfInt("k", 0, 40), mode: vfChoice("mode", 3), partial: vfInt("partial", 0, 3)}
+	bad := &vfFailWriter{k: vfInt("k", 0, 40), mode: vfChoice("mode", 3)}
+	if bad.mode == 2 {
+		bad.partial = vfChoice("partial", 7)
+	}
 	vfAssume(bad.k < W)
 	err := rt.RenderTo(bad)
 	vfAssert(err != nil, "failure-surfaces-as-error")
